@@ -648,10 +648,17 @@ class C12:
     def __call__(self, rec):
         if rec.get("mod") != "storage":
             return []
-        if rec["hist"] != self.hist:
+        fresh = rec["hist"] != self.hist
+        if fresh:
             self.hist, self.dep, self.last = rec["hist"], {}, {}
         out = []
         pre, post = rec["pre"], rec["post"]
+        if fresh:
+            # gauges the chain started with (seeded through genesis): their deposits were not observed — what the
+            # record says was deposited is taken as such
+            for _, g in pre["gauges"]:
+                for d, a in g["coins"]:
+                    self.dep[(g["account"], d)] = self.dep.get((g["account"], d), 0) + a
         b0, b1 = bank(pre), bank(post)
         g0, g1 = dict(pre["gauges"]), dict(post["gauges"])
         accs = {g["account"]: g for g in list(g0.values()) + list(g1.values())}
